@@ -299,15 +299,15 @@ Definition index_at (l ys : list nt) (s : sst) (at_ : option item) (post : list 
       if negb (Nat.eqb (length vals) (prod tsh)) then Raised
       else rbind (norm_all vals n) (fun js => rbind (all_nth ys js) (fun ms => nest_stack nd tsh ms))
   | Some (IMask msh bits) =>
-      match msh, s_pre s, post with
-      | [k], [], [] =>
-          if Nat.eqb k n && Nat.eqb (length bits) n && forallb is_shared l
+      match msh with
+      | [k] =>
+          if Nat.eqb k n && Nat.eqb (length bits) n
           then match true_pos bits with
                | [] => OutOfModel
-               | sel => rbind (all_nth l sel) (fun ms => Ok (Stack 0 ms))
+               | sel => rbind (all_nth ys sel) (fun ms => Ok (Stack nd ms))
                end
           else OutOfModel
-      | _, _, _ => OutOfModel
+      | _ => OutOfModel
       end
   | Some INone => OutOfModel
   end.
@@ -647,37 +647,11 @@ Proof.
     rewrite Eidx in Hr, Hn |- *. clear Eidx Esp it0 idx0. subst sh.
     destruct at_ as [it|].
     + destruct Hat as [Hcd Hnn]. assert (Hq : new_stack_dim d st = prod_n pre) by lia. rewrite Hq in H. clear Hnd Hq.
-      assert (Hci : (consumes it = 1 /\ forall msh bits, it <> IMask msh bits) \/ exists msh bits, it = IMask msh bits).
-      { destruct it; cbn; eauto; try congruence; left; split; auto; discriminate. }
-      destruct Hci as [[Hci Hnm]|(msh & bits & ->)].
-      2:{ (* a mask on the stack dim: only the plain case is in the model *)
-          cbn [index_at] in H. rewrite <- Epre in H. destruct msh as [|k [|? ?]]; try discriminate.
-          destruct pre; [|discriminate]. destruct post; [|discriminate].
-          destruct (Nat.eqb k (length l) && Nat.eqb (length bits) (length l) && forallb is_shared l); [|discriminate].
-          destruct (true_pos bits) as [|p0 sel'] eqn:Etp; [discriminate|].
-          destruct (all_nth l (p0 :: sel')) as [ms| |] eqn:Ems; cbn [rbind] in H; try discriminate. injection H as <-.
-          cbn [cons_n fold_right] in Hcd. subst d. cbn [app] in *.
-          destruct (ix_shape_around [] (IMask [k] bits) [] 0 n s r ltac:(lia) eq_refl eq_refl Hr) as (o1 & oa & o2 & E1 & Ea & E2 & -> & _ & _).
-          cbn [ix_shape firstn skipn] in E1, E2. injection E1 as <-. injection E2 as <-. cbn [app].
-          cbn [item_shape] in Ea.
-          destruct (shape_eqb [k] [n] && Nat.eqb (length bits) (prod [k]) && negb (Nat.eqb (length [k]) 0)); [|discriminate].
-          injection Ea as <-. destruct (all_nth_spec _ _ _ Ems) as [Lms Hms].
-          assert (Hall : Forall (fun y => shape y = Some s /\ wf y = true) ms).
-          { apply Forall_forall. intros y Hy. pose proof (all_nth_in _ _ _ Ems y Hy) as Hin. rewrite Forall_forall in Hwf, Hss. split; auto. }
-          destruct (stack_of_members 0 ms s ltac:(intros ->; discriminate) Hall ltac:(lia)) as [S W].
-          split; [|split; [exact W|]].
-          - rewrite S, Lms, Etp, insert_at_0. reflexivity.
-          - intros R I HI.
-            destruct (ix_src_around [] (IMask [k] bits) [] 0 n s R I ltac:(lia) eq_refl eq_refl HI) as (s1 & j & s2 & -> & L1 & LR & Ei & Es).
-            destruct s1; [|discriminate]. cbn [app prod_n fold_right produces firstn skipn Nat.add] in *.
-            cbn [item_src] in Ei.
-            destruct (shape_eqb [k] [n] && Nat.eqb (length bits) (prod [k]) && negb (Nat.eqb (length [k]) 0)); [|discriminate].
-            destruct R as [|k' R']; [cbn in LR; lia|]. cbn [firstn skipn] in *.
-            rewrite Etp in Ei. destruct (nth_error (p0 :: sel') k') as [pp|] eqn:Epp; cbn [option_map] in Ei; [|discriminate].
-            cbn [unravel prod fold_right] in Ei. rewrite Nat.div_1_r in Ei. injection Ei as <-.
-            cbn [ix_src] in Es. destruct (in_range s R'); [|discriminate]. injection Es as <-.
-            rewrite !denote_stack. cbn [nth_error]. rewrite !remove_at_0.
-            now rewrite (Hms _ _ Epp). }
+      assert (Hci : consumes it = 1 \/ exists msh bits, it = IMask msh bits /\ length msh <> 1).
+      { destruct it as [i|a b c| |tsh vals|msh bits]; cbn; auto; try congruence. destruct (Nat.eq_dec (length msh) 1); eauto. }
+      destruct Hci as [Hci|(msh & bits & -> & Hm1)].
+      2:{ (* a mask of another rank on the stack dim is not in the model *)
+          cbn [index_at] in H. destruct msh as [|k [|? ?]]; try discriminate. now cbn in Hm1. }
       destruct (ix_shape_around pre it post d n s r Hd Hcd Hci Hr) as (o1 & oa & o2 & E1 & Ea & E2 & -> & Esub & Lo1).
       destruct (members_indexed l (pre ++ post) s (o1 ++ o2) ys IH Hwf Hss (n_adv_sub _ _ _ Hn) Esub Eys) as (Lys & Hallys & Hden).
       assert (Hsrc : forall R I, ix_src (pre ++ it :: post) (insert_at d n s) R = Some I ->
@@ -688,7 +662,7 @@ Proof.
                   ix_src (pre ++ post) s (firstn (prod_n pre) R ++ skipn (prod_n pre + produces it) R) = Some (s1 ++ s2)).
       { intros R I HI. destruct (ix_src_around pre it post d n s R I Hd Hcd Hci HI) as (s1 & j & s2 & A1 & A2 & A3 & A4 & A5).
         exists s1, j, s2. repeat split; auto; [apply list_split3; lia|rewrite firstn_length; lia]. }
-      destruct it as [i|a b c| |tsh vals|msh bits]; [| | congruence | |exfalso; eapply Hnm; reflexivity];
+      destruct it as [i|a b c| |tsh vals|msh bits]; [| | congruence | |];
         cbn [index_at] in H; rewrite <- En in H.
       * (* int *)
         cbn [item_shape] in Ea. destruct (norm i n) as [j0|] eqn:Ej0; [|discriminate]. injection Ea as <-.
@@ -755,6 +729,34 @@ Proof.
               ** apply nth_error_None in Ey0. assert (jj < length l) by (apply nth_error_Some; congruence). lia.
            ++ apply nth_error_None in Em. destruct (nth_error ys jj) eqn:Ey0; [|reflexivity].
               assert (jj < length ys) by (apply nth_error_Some; congruence). lia.
+      * (* a 1-d mask on the stack dim *)
+        destruct msh as [|k [|? ?]]; cbn [consumes length] in Hci; try discriminate.
+        cbn [item_shape] in Ea.
+        destruct (shape_eqb [k] [n] && Nat.eqb (length bits) (prod [k]) && negb (Nat.eqb (length [k]) 0)) eqn:Ev; [|discriminate].
+        injection Ea as <-.
+        destruct (Nat.eqb k n && Nat.eqb (length bits) n); [|discriminate].
+        destruct (true_pos bits) as [|p0 sel'] eqn:Etp; [discriminate|]. rewrite <- Etp in H |- *.
+        destruct (all_nth ys (true_pos bits)) as [ms| |] eqn:Ems; cbn [rbind] in H; try discriminate. injection H as <-.
+        destruct (all_nth_spec _ _ _ Ems) as [Lms Hms].
+        assert (Hall : Forall (fun y => shape y = Some (o1 ++ o2) /\ wf y = true) ms).
+        { apply Forall_forall. intros y Hy. pose proof (all_nth_in _ _ _ Ems y Hy) as Hin. rewrite Forall_forall in Hallys. auto. }
+        assert (Hne : ms <> []). { intros ->. cbn in Lms. rewrite Etp in Lms. discriminate. }
+        destruct (stack_of_members (prod_n pre) ms (o1 ++ o2) Hne Hall ltac:(rewrite app_length; lia)) as [S W].
+        split; [|split; [exact W|]].
+        -- rewrite S, Lms, <- Lo1, insert_at_len_app. reflexivity.
+        -- intros R I HI. destruct (Hsrc R I HI) as (s1 & j & s2 & -> & L1 & ER & LA & Ei & Es).
+           cbn [produces] in *. remember (firstn (prod_n pre) R) as RA. remember (skipn (prod_n pre + 1) R) as RB.
+           destruct (firstn 1 (skipn (prod_n pre) R)) as [|k' [|? ?]] eqn:EM; cbn [item_src] in Ei; rewrite Ev in Ei; try discriminate.
+           destruct (nth_error (true_pos bits) k') as [pp|] eqn:Epp; cbn [option_map] in Ei; [|discriminate].
+           cbn [unravel prod fold_right] in Ei. rewrite Nat.div_1_r in Ei. injection Ei as <-.
+           rewrite ER. cbn [app]. rewrite !denote_stack_at by assumption.
+           rewrite (Hms k' _ Epp).
+           destruct (nth_error l pp) as [m|] eqn:Em.
+           ++ destruct (nth_error ys pp) as [y0|] eqn:Ey0.
+              ** eapply Hden; eauto.
+              ** apply nth_error_None in Ey0. assert (pp < length l) by (apply nth_error_Some; congruence). lia.
+           ++ apply nth_error_None in Em. destruct (nth_error ys pp) eqn:Ey0; [|reflexivity].
+              assert (pp < length ys) by (apply nth_error_Some; congruence). lia.
     + (* the index ends before the stack dim *)
       subst post. rewrite app_nil_r in *. cbn [index_at] in H. injection H as <-.
       destruct (ix_shape_before pre d n s r Hd Hc Hr) as (o1 & -> & Esub & Lo1).
